@@ -449,7 +449,10 @@ TDied ==
 
 TAbnormal ==
   /\ l <= Len(Tr) /\ E.e \in {"Abnormal", "Bad"}
+  \* in the in-process harness an abnormal end is a signal or a failed assertion inside ninja's own classes (status > 0):
+  \* that fails whatever property the scenario was run for ("ANY" is reported under the property of the running check)
   /\ viol' = viol \cup {V("C06", "invocation ended abnormally (signal, watchdog or harness inconsistency)", "")}
+                   \cup (IF E.e = "Abnormal" /\ E.status > 0 THEN {V("ANY", "ninja's code died from a signal or a failed assertion in the middle of an invocation", "")} ELSE {})
   /\ iv' = NoIv /\ relax' = TRUE /\ prev' = NoPrev
   /\ UNCHANGED <<meta, g, L, F, FT, taint, afterCrash, tw, stats>> /\ Step
 
